@@ -190,8 +190,12 @@ def run(tier, seed):
         vlib.require_mc_ok(r, c)
         o.add_mc(c[:-4], r)
     # controls: seeded defects in the design spec must violate the invariant meant to exclude them
-    for var, inv in ([] if os.environ.get("C15_SKIP_MC") else CONTROLS):
-        r = vlib.tlc("C15", FAMILY, "SchedulerMC", "SchedulerMC_ctl_%s.cfg" % var, timeout=300, workers=4, heap="2g")
+    from concurrent.futures import ThreadPoolExecutor
+    ctl = [] if os.environ.get("C15_SKIP_MC") else CONTROLS
+    with ThreadPoolExecutor(max_workers=6) as ex:
+        res = list(ex.map(lambda c: vlib.tlc("C15", FAMILY, "SchedulerMC", "SchedulerMC_ctl_%s.cfg" % c[0], timeout=300,
+                                             workers=2, heap="2g"), ctl))
+    for (var, inv), r in zip(ctl, res):
         if r.violation != inv:
             raise vlib.Infra("design-spec control failed: variant %s should violate %s: %s" % (var, inv, r.summary()))
         o.selftests.append({"control": "spec variant %s violates %s" % (var, inv), "rejected_as_required": True})
